@@ -476,7 +476,7 @@ class Replayer:
             from . import immut as IM
 
             before_t = [None if t is None else IM.fp_table(t) for t in side.heap]
-            before_e = {key: IM.fp_expr(x) for key, x in side.pool.items()}
+            before_e = {key: IM.fp_expr(x) for key, x in side.pool.items() if not key.startswith("__")}
         try:
             res = R.apply_move(m, side.heap, side.colmap, side.pool)
         except R.MissingRef as e:
@@ -567,6 +567,10 @@ class Replayer:
         for key, fp0 in before_e.items():
             if IM.fp_expr(side.pool[key]) != fp0:
                 self.fail(node, beh, k, bk, "immut-fp", f"expression object passed as an argument earlier was modified: {key[:200]}")
+        # argument containers created for THIS call (the list given as on=): compared with what the caller built
+        for key, fp0 in side.pool.get("__created__", {}).items():
+            if key not in before_e and IM.fp_expr(side.pool[key]) != fp0:
+                self.fail(node, beh, k, bk, "immut-fp", f"the list passed as an argument was modified by the call: {key[:200]}")
         # re-export the inputs of this move: same result as when they were first exported
         for w in ("i", "j"):
             if w in m and m[w] - 1 < len(side.frames):
